@@ -6,9 +6,11 @@
 #[verifier::external_type_specification] pub struct ExLiteralKind(LiteralKind);
 #[verifier::external_type_specification] pub struct ExLiteral(Literal);
 #[verifier::external_type_specification] pub struct ExClassSetRange(ClassSetRange);
-#[verifier::external_type_specification] #[verifier::external_body] pub struct ExClassAscii(ClassAscii);
+#[verifier::external_type_specification] pub struct ExClassAsciiKind(ClassAsciiKind);
+#[verifier::external_type_specification] pub struct ExClassAscii(ClassAscii);
 #[verifier::external_type_specification] #[verifier::external_body] pub struct ExClassUnicode(ClassUnicode);
-#[verifier::external_type_specification] #[verifier::external_body] pub struct ExClassPerl(ClassPerl);
+#[verifier::external_type_specification] pub struct ExClassPerlKind(ClassPerlKind);
+#[verifier::external_type_specification] pub struct ExClassPerl(ClassPerl);
 #[verifier::external_type_specification] pub struct ExClassSetUnion(ClassSetUnion);
 #[verifier::external_type_specification] pub struct ExClassBracketed(ClassBracketed);
 #[verifier::external_type_specification] pub struct ExClassSet(ClassSet);
